@@ -45,6 +45,7 @@ fn serve(mut s: UnixStream) -> Vec<(Vec<u8>, Result<ReqMsg, String>)> {
     let mut buf: Vec<u8> = vec![];
     let mut tmp = [0u8; 65536];
     let _ = s.set_read_timeout(Some(Duration::from_secs(20)));
+    let mut peer_gone = false;
     loop {
         while let Some(total) = ber::outer_complete(&buf) {
             let raw: Vec<u8> = buf.drain(..total).collect();
@@ -113,8 +114,10 @@ fn serve(mut s: UnixStream) -> Vec<(Vec<u8>, Result<ReqMsg, String>)> {
                     }
                 }
             }
-            if !out.is_empty() && s.write_all(&out).is_err() {
-                return log;
+            // a failed write (the client has already closed) must not hide requests that were
+            // received: keep decoding what is buffered, just stop answering
+            if !out.is_empty() && !peer_gone && s.write_all(&out).is_err() {
+                peer_gone = true;
             }
         }
         match s.read(&mut tmp) {
@@ -152,6 +155,16 @@ pub enum Obs {
     IsClosed(bool),
 }
 
+/// Does this step make the server drop the connection (or unbind)?
+fn kills_connection(op: &SOp) -> bool {
+    match op {
+        SOp::Call(Call::Unbind, _) => true,
+        SOp::Call(c, _) => c.expected().token_field().map(|f| behaviour_of(f) == "close").unwrap_or(false),
+        SOp::Stream(sp, ..) => behaviour_of(sp.base.as_bytes()) == "close",
+        _ => false,
+    }
+}
+
 fn run_sync(script: &[SOp], sock: UnixStream) -> Vec<Obs> {
     let mut obs = vec![];
     let mut conn = match LdapConn::with_settings(LdapConnSettings::new().set_std_stream(StdStream::Unix(sock)), "ldapi:///") {
@@ -159,6 +172,10 @@ fn run_sync(script: &[SOp], sock: UnixStream) -> Vec<Obs> {
         Err(e) => return vec![Obs::Out(Outcome::Err(format!("connect:{}", err_class(&e)), String::new()))],
     };
     for op in script {
+        if obs.len() > 0 && script.get(obs.len() - 1).map(kills_connection).unwrap_or(false) {
+            // give the driver time to notice the dead connection, so that later steps do not race it
+            std::thread::sleep(Duration::from_millis(80));
+        }
         match op {
             SOp::LastId => obs.push(Obs::LastId(conn.last_id())),
             SOp::IsClosed => obs.push(Obs::IsClosed(conn.is_closed())),
@@ -259,6 +276,9 @@ fn run_async(script: &[SOp], sock: UnixStream) -> Vec<Obs> {
         };
         ldap3::drive!(conn);
         for op in script {
+            if obs.len() > 0 && script.get(obs.len() - 1).map(kills_connection).unwrap_or(false) {
+                tokio::time::sleep(Duration::from_millis(80)).await;
+            }
             match op {
                 SOp::LastId => obs.push(Obs::LastId(ldap.last_id())),
                 SOp::IsClosed => obs.push(Obs::IsClosed(ldap.is_closed())),
@@ -440,11 +460,29 @@ fn run_case(i: u64, rng: &mut Rng, rep: &mut Report, verbose: bool) {
             return;
         }
     };
+    // From the step that makes the server disconnect (behaviour "close") or that unbinds, both
+    // runs are racing the driver's discovery of the dead connection in real time: the error class
+    // of later steps and whether a later request still reaches the wire legitimately vary from run
+    // to run. From there on the oracle only requires that both APIs fail (or both succeed).
+    let dying_from: Option<usize> = script.iter().position(|op| match op {
+        SOp::Call(Call::Unbind, _) => true,
+        SOp::Call(c, _) => c.expected().token_field().map(|f| behaviour_of(f) == "close").unwrap_or(false),
+        SOp::Stream(sp, ..) => behaviour_of(sp.base.as_bytes()) == "close",
+        _ => false,
+    });
+    // number of requests put on the wire by the steps before that point
+    let wire_stable: usize = match dying_from {
+        None => usize::MAX,
+        Some(k) => script[..k].iter().filter(|op| matches!(op, SOp::Call(..) | SOp::Stream(..))).count(),
+    };
     // wire transcripts
-    if sl.len() != al.len() {
+    if dying_from.is_none() && sl.len() != al.len() {
         rep.violation("C14:wire:number-of-requests-differs", format!("sync sent {} requests, async {}; script {}", sl.len(), al.len(), brief(&script)), replay.clone());
     }
     for (k, ((sraw, sm), (araw, am))) in sl.iter().zip(&al).enumerate() {
+        if k >= wire_stable {
+            break;
+        }
         match (sm, am) {
             (Ok(s), Ok(a)) => {
                 if normalise(&s.op) != normalise(&a.op) || s.id != a.id || s.controls != a.controls {
@@ -461,7 +499,28 @@ fn run_case(i: u64, rng: &mut Rng, rep: &mut Report, verbose: bool) {
     if so.len() != ao.len() {
         rep.violation("C14:results:number-of-results-differs", format!("{} vs {}", so.len(), ao.len()), replay.clone());
     }
+    let failed = |o: &Obs| -> bool {
+        match o {
+            Obs::Out(Outcome::Err(..)) | Obs::Out(Outcome::Panic(_)) | Obs::Out(Outcome::Hung) => true,
+            Obs::Stream { ended, .. } => ended.starts_with("err"),
+            _ => false,
+        }
+    };
     for (k, (s, a)) in so.iter().zip(&ao).enumerate() {
+        if let Some(d) = dying_from {
+            if k >= d {
+                // is_closed()/last_id() while the connection is going down are timing-dependent too
+                let comparable = !matches!(script.get(k), Some(SOp::IsClosed) | Some(SOp::LastId));
+                if comparable && k > d && failed(s) != failed(a) {
+                    rep.violation("C14:results:one-api-fails-where-the-other-succeeds-on-a-dead-connection", format!("step {}: sync {} async {}; script {}", k, trunc(s), trunc(a), brief(&script)), replay.clone());
+                }
+                if k == d && matches!(script.get(k), Some(SOp::Call(Call::Unbind, _))) && s != a {
+                    rep.violation("C14:results:differ:unbind", format!("step {}: sync {} async {}", k, trunc(s), trunc(a)), replay.clone());
+                }
+                rep.count("steps_on_a_dying_connection(compared by success/failure only)", 1);
+                continue;
+            }
+        }
         if s != a {
             let opname = match script.get(k) {
                 Some(SOp::Call(c, _)) => c.kind().to_string(),
